@@ -131,6 +131,8 @@ class Evaluator(object):
             return getattr(v, n.attr)
         if isinstance(v, Opaque):
             return Opaque('%s.%s' % (v.what, n.attr), n)
+        if isinstance(v, Native) and n.attr in getattr(v, 'attrs', {}):
+            return v.attrs[n.attr]             # a modelled callable with data attributes (e.g. the `limit` of a modular integer type)
         raise NotConst('attribute %s of %r' % (n.attr, type(v).__name__))
 
     def ev_List(self, n, loc):
